@@ -1082,6 +1082,9 @@ pub fn run(a: &Args, rep: &mut Report) {
     let n = corpus::small_trees(a, max_nodes, 3, &mut |it| {
         let enc = it.encode();
         check_item(&cx, rep, it, &enc, &mut rng);
+        if it.node_count() >= 2 {
+            crate::iterlaws::check_item(rep, it, &enc);
+        }
     });
     rep.enumerated(n);
     rep.count_n("exhaustive/small trees", n);
@@ -1105,6 +1108,9 @@ pub fn run(a: &Args, rep: &mut Report) {
         }
         rep.seen(fnv64(&enc));
         check_item(&cx, rep, &it, &enc, &mut r);
+        if i % 4 < 2 {
+            crate::iterlaws::check_item(rep, &it, &enc);
+        }
         if rep.want_sample() && enc.len() > 6 && enc.len() < 32 {
             rep.sample(J::obj().with("item", J::s(hex(&enc))).with("diag", J::s(refcbor::diag(&it))));
         }
@@ -1115,6 +1121,11 @@ pub fn run(a: &Args, rep: &mut Report) {
 }
 
 pub fn replay(a: &Args, rep: &mut Report) {
+    if a.replay[0] == "iterlaws" {
+        let input = vcore::json::unhex(&a.replay[1]).expect("hex");
+        rep.eval();
+        return crate::iterlaws::check_bytes(rep, &input);
+    }
     let input = vcore::json::unhex(&a.replay[0]).expect("hex");
     let cx = Ctx { targets: targets() };
     let mut rng = Rng::new(1);
